@@ -147,6 +147,12 @@ MUTATIONS: dict[str, tuple[str, str, str, str]] = {
         "        if cached:\n            n_frames = len(cache)\n            image._close_image(img)\n",
         "next:raises:* and next:cache-visible:twin-raises-* (cache miss after the first pass)",
     ),
+    "renderer-restores-stale-size": (  # seeded/C11-u2
+        COMMON,
+        "        finally:\n            if isinstance(_size, Size):\n                self.size = _size\n",
+        "        finally:\n            self._size = _size\n",
+        "draw-animated:size-changed (the user sets a size while the animation runs)",
+    ),
     "eof-off-by-one": (
         COMMON,
         "            n = n + 1 if sent is None else sent - 1\n\n        if cached:\n            n_frames = len(cache)",
